@@ -104,7 +104,7 @@ func dropEmptyKeys(o [][2]string) [][2]string {
 	return out
 }
 
-var byteFaults = []string{"bitflip", "bitflip", "rewrite", "mapping_slack", "mapping_slack", "after_sig", "sig_swap", "key_subst", "replay"}
+var byteFaults = []string{"bitflip", "bitflip", "rewrite", "mapping_slack", "mapping_slack", "after_sig", "sig_swap", "key_subst", "replay", "revocation_key_forgery"}
 var shapeFaults = []string{"offline_forgery", "offline_forgery", "offline_transplant", "store_confusion"}
 
 func (World) Generate(r *engine.RNG, tier string) *engine.Script {
@@ -197,9 +197,9 @@ func applyShapeFault(sh *engine.Shape, f *engine.Fault) bool {
 		if want == 0 {
 			return false
 		}
-		p := []int{3, 5, 7, 1, 0xFF}[int(f.N[0])%5]
+		p := []int{3, 5, 7, 1, 0xFF, -1}[int(f.N[0])%6]
 		if p == want {
-			p = 1
+			p = -1
 		}
 		sh.Prefix = p
 		return true
@@ -333,6 +333,27 @@ func applyByteFault(m *message, f *engine.Fault, recorded []*message) bool {
 		}
 		copy(raw[384-len(other.Pub):384], other.Pub)
 		return true
+	case "revocation_key_forgery":
+		// LeaseSet only: the adversary puts a key of its own into the
+		// revocation-key field and signs the body with it
+		if m.kind != "leaseset" || fr.SigStart <= 0 || fr.SigStart > len(raw) {
+			return false
+		}
+		adv := refmodel.NewSignKey(40+uint64(f.N[0])%4, m.idSig)
+		if !adv.CanSign() {
+			return false
+		}
+		for _, fl := range fr.Fields {
+			if fl.Name == "ls_signing_key" && fl.End-fl.Start == len(adv.Pub) {
+				copy(raw[fl.Start:fl.End], adv.Pub)
+				sig := adv.Sign(raw[:fr.SigStart], uint64(f.N[1]))
+				if len(sig) == len(raw)-fr.SigStart {
+					copy(raw[fr.SigStart:], sig)
+					return true
+				}
+			}
+		}
+		return false
 	case "replay":
 		if len(recorded) == 0 {
 			return false
